@@ -5,7 +5,7 @@ CONSTANTS
   Kind = "nameaddr"
   Atoms <- AtomsParams
   Prefix <- PfxABS
-  MaxLen = 7
+  MaxLen = 8
   Cfgs <- CfgsNA18
   Junk = 34
   EmitOn = TRUE
